@@ -98,7 +98,8 @@ def run(ctx):
                                    summary="running dedupe on its own output changed it")
             break
     # growth: many distinct keys, duplicates of early keys late
-    n = 120000 if ctx.tier == "quick" else 3000000
+    # (the seen-set doubles at 75% load; 450000 keys take it through malloc -> mmap (2 MiB) and two further growths)
+    n = 450000 if ctx.tier == "quick" else 3000000
     lines = [b"k%d" % i for i in range(n)]
     dup_idx = [rng.randrange(n) for _ in range(2000)]
     data = b"".join(l + b"\n" for l in lines) + b"".join(lines[i] + b"\n" for i in dup_idx)
@@ -111,6 +112,16 @@ def run(ctx):
         pvlib.report_violation(ctx, f"dedupe-large:{n}", {"argv": ["dedupe"], "generator": f"k0..k{n - 1} then 2000 repeats (seed {ctx.seed})",
                                "status": st, "first_diff_line": k},
                                summary=f"dedupe on {n} distinct keys + repeats: output differs from the distinct keys at line {k} (status {st})")
+    # one line longer than the reader's buffer after two doublings (> 2 MiB, so the buffer itself moves from malloc to mmap)
+    bigl = bytes(97 + (i * 7 + i // 251) % 26 for i in range(3_000_000))
+    data = bigl + b"\nshort\n" + bigl + b"\nshort\n"
+    st, out, err = pvlib.run_tool([ctx.bin("dedupe")], data, env=pvlib.san_env(), timeout=600)
+    ctx.count("dedupe.longline", 1, [len(bigl)])
+    if st != 0 or out != bigl + b"\nshort\n":
+        k = next((i for i, (p_, q_) in enumerate(zip(out, bigl + b"\nshort\n")) if p_ != q_), min(len(out), len(bigl) + 7))
+        pvlib.report_violation(ctx, "dedupe-longline", {"argv": ["dedupe"], "generator": "3,000,000-byte line, 'short', the same line, 'short' (pipe)", "status": st,
+                               "output_bytes": len(out), "first_diff_byte": k},
+                               summary=f"dedupe on a 3,000,000-byte line given twice (pipe): output has {len(out)} bytes, expected {len(bigl) + 7}; first difference at byte {k} (status {st})")
     # parallel mode
     for _ in range(40 if ctx.tier == "quick" else 400):
         k = rng.randrange(0, 12)
